@@ -185,6 +185,7 @@ def job_check(kind, case, rec):
     region = fem.RegionHexahedron(mesh) if dim == 3 else fem.RegionQuad(mesh)
     fc = fem.FieldContainer([fem.Field(region, dim=3) if dim == 3 else fem.FieldPlaneStrain(region, dim=2)])
     ekw = {}
+    mesh_file = None
     if kind == "multibody":
         # two bodies on sub-meshes which share the points of the global mesh; the global field is passed as x0 and its
         # mesh is the one the result file must contain
@@ -194,6 +195,12 @@ def job_check(kind, case, rec):
         fields = [fem.FieldContainer([fem.FieldPlaneStrain(fem.RegionQuad(sm), dim=2)]) for sm in subs]
         items = [fem.SolidBody(fem.NeoHooke(mu=3.0, bulk=9.0), fields[0]), fem.SolidBody(fem.NeoHooke(mu=1.0, bulk=4.0), fields[1])]
         ekw["x0"] = fc
+        if case["seed"] % 2 == 0:
+            # the mesh of the result file handed over explicitly next to x0 (the same points, the cells listed in reverse order): the file
+            # contains the mesh it was given
+            mesh_file = fem.Mesh(mesh.points, np.asarray(mesh.cells)[::-1].copy(), "quad")
+            ekw["mesh"] = mesh_file.as_meshio()  # (the writer takes a meshio mesh, as the job builds one itself by default)
+            rec.label("explicit-mesh-next-to-x0")
     else:
         items = [fem.SolidBody(fem.NeoHooke(mu=1.0, bulk=4.0), fc)]
         if case["seed"] % 3 == 0:
@@ -251,7 +258,7 @@ def job_check(kind, case, rec):
             pts, cells = rd.read_points_cells()
             rec.require("frames=converged-substeps", rd.num_steps == len(seen), [rd.num_steps, len(seen)])
             rec.require("mesh-points", np.array_equal(np.asarray(pts)[:, :dim], np.asarray(mesh.points)))
-            rec.require("mesh-cells", len(cells) == 1 and np.array_equal(np.asarray(cells[0].data), np.asarray(mesh.cells)))
+            rec.require("mesh-cells", len(cells) == 1 and np.array_equal(np.asarray(cells[0].data), np.asarray((mesh_file or mesh).cells)))
             for i in range(min(rd.num_steps, len(seen))):
                 t, pd, cd = rd.read_data(i)
                 rec.close("time=0,1,2,...", abs(t - i), 0.0)
